@@ -1,0 +1,464 @@
+//! Verification hooks. Compiled only with `--cfg curve25519_dalek_verif`; never part of a
+//! normal build. Everything here is a thin wrapper that exposes crate-internal items
+//! (field elements from raw limbs, internal constants, point coordinates, scalar recoders,
+//! table entries, the run-time backend choice) to an external test harness. Nothing in this
+//! module is used by the crate itself, with one exception: `forced_backend()` is read by the
+//! guarded override at the top of `backend::get_selected_backend`.
+#![allow(missing_docs, non_snake_case, dead_code, clippy::all)]
+
+use core::sync::atomic::{AtomicU8, Ordering};
+
+use subtle::{Choice, ConditionallyNegatable, ConditionallySelectable, ConstantTimeEq};
+
+use crate::backend::serial::curve_models::{
+    AffineNielsPoint, CompletedPoint, ProjectiveNielsPoint, ProjectivePoint,
+};
+use crate::constants;
+use crate::edwards::EdwardsPoint;
+use crate::field::FieldElement;
+use crate::ristretto::RistrettoPoint;
+use crate::scalar::Scalar;
+
+// ---------------------------------------------------------------------------------------
+// Run-time backend override
+// ---------------------------------------------------------------------------------------
+
+/// 0 = no override (CPU detection), 1 = serial, 2 = AVX2, 3 = AVX-512 IFMA.
+static FORCED_BACKEND: AtomicU8 = AtomicU8::new(0);
+
+pub const BACKEND_AUTO: u8 = 0;
+pub const BACKEND_SERIAL: u8 = 1;
+pub const BACKEND_AVX2: u8 = 2;
+pub const BACKEND_AVX512: u8 = 3;
+
+/// Force the implementation selected by the run-time dispatcher. Forcing a vector backend
+/// the CPU does not support is the caller's responsibility (undefined behaviour otherwise).
+pub fn force_backend(kind: u8) {
+    FORCED_BACKEND.store(kind, Ordering::SeqCst);
+}
+
+pub fn forced_backend() -> u8 {
+    FORCED_BACKEND.load(Ordering::SeqCst)
+}
+
+/// Which dispatch choices exist in this build: (serial, avx2, avx512).
+pub fn compiled_backends() -> (bool, bool, bool) {
+    (
+        true,
+        cfg!(curve25519_dalek_backend = "simd"),
+        cfg!(all(curve25519_dalek_backend = "unstable_avx512", nightly)),
+    )
+}
+
+/// Name of the serial field/scalar backend of this build.
+pub fn serial_backend_name() -> &'static str {
+    if cfg!(curve25519_dalek_backend = "fiat") {
+        if cfg!(curve25519_dalek_bits = "32") {
+            "fiat_u32"
+        } else {
+            "fiat_u64"
+        }
+    } else if cfg!(curve25519_dalek_bits = "32") {
+        "u32"
+    } else {
+        "u64"
+    }
+}
+
+// ---------------------------------------------------------------------------------------
+// Serial field element
+// ---------------------------------------------------------------------------------------
+
+#[cfg(curve25519_dalek_bits = "64")]
+pub const FE_LIMBS: usize = 5;
+#[cfg(curve25519_dalek_bits = "32")]
+pub const FE_LIMBS: usize = 10;
+
+/// The serial `FieldElement` of this build.
+#[derive(Copy, Clone)]
+pub struct Fe(pub(crate) FieldElement);
+
+impl Fe {
+    pub const ZERO: Fe = Fe(FieldElement::ZERO);
+    pub const ONE: Fe = Fe(FieldElement::ONE);
+    pub const MINUS_ONE: Fe = Fe(FieldElement::MINUS_ONE);
+
+    /// Build from raw limbs (the first `FE_LIMBS` entries), without any reduction.
+    pub fn from_limbs(l: &[u64; 10]) -> Fe {
+        #[cfg(curve25519_dalek_bits = "64")]
+        {
+            Fe(FieldElement::from_limbs([l[0], l[1], l[2], l[3], l[4]]))
+        }
+        #[cfg(curve25519_dalek_bits = "32")]
+        {
+            let mut a = [0u32; 10];
+            for i in 0..10 {
+                a[i] = l[i] as u32;
+            }
+            Fe(FieldElement::from_limbs(a))
+        }
+    }
+
+    /// Raw limbs (first `FE_LIMBS` entries meaningful).
+    pub fn limbs(&self) -> [u64; 10] {
+        let mut out = [0u64; 10];
+        #[cfg(not(curve25519_dalek_backend = "fiat"))]
+        {
+            for i in 0..FE_LIMBS {
+                out[i] = (self.0).0[i] as u64;
+            }
+        }
+        #[cfg(curve25519_dalek_backend = "fiat")]
+        {
+            for i in 0..FE_LIMBS {
+                out[i] = ((self.0).0).0[i] as u64;
+            }
+        }
+        out
+    }
+
+    pub fn from_bytes(b: &[u8; 32]) -> Fe {
+        Fe(FieldElement::from_bytes(b))
+    }
+    pub fn as_bytes(&self) -> [u8; 32] {
+        self.0.as_bytes()
+    }
+    pub fn add(&self, o: &Fe) -> Fe {
+        Fe(&self.0 + &o.0)
+    }
+    pub fn add_assign(&self, o: &Fe) -> Fe {
+        let mut t = self.0;
+        t += &o.0;
+        Fe(t)
+    }
+    pub fn sub(&self, o: &Fe) -> Fe {
+        Fe(&self.0 - &o.0)
+    }
+    pub fn sub_assign(&self, o: &Fe) -> Fe {
+        let mut t = self.0;
+        t -= &o.0;
+        Fe(t)
+    }
+    pub fn mul(&self, o: &Fe) -> Fe {
+        Fe(&self.0 * &o.0)
+    }
+    pub fn mul_assign(&self, o: &Fe) -> Fe {
+        let mut t = self.0;
+        t *= &o.0;
+        Fe(t)
+    }
+    pub fn neg(&self) -> Fe {
+        Fe(-&self.0)
+    }
+    /// In-place `negate()` where the backend has one (u64 / u32), `Neg` otherwise.
+    pub fn negate(&self) -> Fe {
+        #[cfg(not(curve25519_dalek_backend = "fiat"))]
+        {
+            let mut t = self.0;
+            t.negate();
+            Fe(t)
+        }
+        #[cfg(curve25519_dalek_backend = "fiat")]
+        {
+            Fe(-&self.0)
+        }
+    }
+    pub fn square(&self) -> Fe {
+        Fe(self.0.square())
+    }
+    pub fn square2(&self) -> Fe {
+        Fe(self.0.square2())
+    }
+    /// k must be > 0 (documented precondition).
+    pub fn pow2k(&self, k: u32) -> Fe {
+        Fe(self.0.pow2k(k))
+    }
+    pub fn invert(&self) -> Fe {
+        Fe(self.0.invert())
+    }
+    #[cfg(feature = "alloc")]
+    pub fn batch_invert(inputs: &mut [Fe]) {
+        let mut v: alloc::vec::Vec<FieldElement> = inputs.iter().map(|x| x.0).collect();
+        FieldElement::batch_invert(&mut v);
+        for (o, i) in inputs.iter_mut().zip(v.iter()) {
+            *o = Fe(*i);
+        }
+    }
+    pub fn sqrt_ratio_i(u: &Fe, v: &Fe) -> (u8, Fe) {
+        let (c, r) = FieldElement::sqrt_ratio_i(&u.0, &v.0);
+        (c.unwrap_u8(), Fe(r))
+    }
+    pub fn invsqrt(&self) -> (u8, Fe) {
+        let (c, r) = self.0.invsqrt();
+        (c.unwrap_u8(), Fe(r))
+    }
+    pub fn is_negative(&self) -> u8 {
+        self.0.is_negative().unwrap_u8()
+    }
+    pub fn is_zero(&self) -> u8 {
+        self.0.is_zero().unwrap_u8()
+    }
+    pub fn ct_eq(&self, o: &Fe) -> u8 {
+        self.0.ct_eq(&o.0).unwrap_u8()
+    }
+    pub fn eq(&self, o: &Fe) -> bool {
+        self.0 == o.0
+    }
+    pub fn conditional_select(a: &Fe, b: &Fe, c: u8) -> Fe {
+        Fe(FieldElement::conditional_select(&a.0, &b.0, Choice::from(c)))
+    }
+    pub fn conditional_assign(&self, o: &Fe, c: u8) -> Fe {
+        let mut t = self.0;
+        t.conditional_assign(&o.0, Choice::from(c));
+        Fe(t)
+    }
+    pub fn conditional_swap(a: &Fe, b: &Fe, c: u8) -> (Fe, Fe) {
+        let (mut x, mut y) = (a.0, b.0);
+        FieldElement::conditional_swap(&mut x, &mut y, Choice::from(c));
+        (Fe(x), Fe(y))
+    }
+    pub fn conditional_negate(&self, c: u8) -> Fe {
+        let mut t = self.0;
+        t.conditional_negate(Choice::from(c));
+        Fe(t)
+    }
+}
+
+/// The crate-internal field constants, by name, as they are stored (raw representation).
+pub fn field_constants() -> [(&'static str, Fe); 13] {
+    [
+        ("ZERO", Fe(FieldElement::ZERO)),
+        ("ONE", Fe(FieldElement::ONE)),
+        ("MINUS_ONE", Fe(FieldElement::MINUS_ONE)),
+        ("FIELD_MINUS_ONE", Fe(constants::MINUS_ONE)),
+        ("EDWARDS_D", Fe(constants::EDWARDS_D)),
+        ("EDWARDS_D2", Fe(constants::EDWARDS_D2)),
+        ("ONE_MINUS_EDWARDS_D_SQUARED", Fe(constants::ONE_MINUS_EDWARDS_D_SQUARED)),
+        ("EDWARDS_D_MINUS_ONE_SQUARED", Fe(constants::EDWARDS_D_MINUS_ONE_SQUARED)),
+        ("SQRT_AD_MINUS_ONE", Fe(constants::SQRT_AD_MINUS_ONE)),
+        ("INVSQRT_A_MINUS_D", Fe(constants::INVSQRT_A_MINUS_D)),
+        ("SQRT_M1", Fe(constants::SQRT_M1)),
+        ("APLUS2_OVER_FOUR", Fe(constants::APLUS2_OVER_FOUR)),
+        ("MONTGOMERY_A", Fe(constants::MONTGOMERY_A)),
+    ]
+}
+
+pub fn montgomery_a_neg() -> Fe {
+    Fe(constants::MONTGOMERY_A_NEG)
+}
+
+// ---------------------------------------------------------------------------------------
+// Scalar internals
+// ---------------------------------------------------------------------------------------
+
+#[cfg(curve25519_dalek_bits = "64")]
+pub const SCALAR_LIMBS: usize = 5;
+#[cfg(curve25519_dalek_bits = "32")]
+pub const SCALAR_LIMBS: usize = 9;
+#[cfg(curve25519_dalek_bits = "64")]
+pub const SCALAR_LIMB_BITS: u32 = 52;
+#[cfg(curve25519_dalek_bits = "32")]
+pub const SCALAR_LIMB_BITS: u32 = 29;
+
+#[cfg(all(curve25519_dalek_backend = "fiat", curve25519_dalek_bits = "32"))]
+type UnpackedScalar = crate::backend::serial::fiat_u32::scalar::Scalar29;
+#[cfg(all(curve25519_dalek_backend = "fiat", curve25519_dalek_bits = "64"))]
+type UnpackedScalar = crate::backend::serial::fiat_u64::scalar::Scalar52;
+#[cfg(all(not(curve25519_dalek_backend = "fiat"), curve25519_dalek_bits = "32"))]
+type UnpackedScalar = crate::backend::serial::u32::scalar::Scalar29;
+#[cfg(all(not(curve25519_dalek_backend = "fiat"), curve25519_dalek_bits = "64"))]
+type UnpackedScalar = crate::backend::serial::u64::scalar::Scalar52;
+
+/// (name, limbs) of the unpacked-scalar constants L, R, RR; and LFACTOR.
+pub fn scalar_constants() -> ([(&'static str, [u64; 9]); 3], u64) {
+    fn lim(s: &UnpackedScalar) -> [u64; 9] {
+        let mut o = [0u64; 9];
+        for i in 0..SCALAR_LIMBS {
+            o[i] = s.0[i] as u64;
+        }
+        o
+    }
+    (
+        [
+            ("L", lim(&constants::L)),
+            ("R", lim(&constants::R)),
+            ("RR", lim(&constants::RR)),
+        ],
+        constants::LFACTOR as u64,
+    )
+}
+
+/// Unpacked (limb) arithmetic, exposed on 32-byte strings.
+pub fn unpacked_roundtrip(b: &[u8; 32]) -> [u8; 32] {
+    UnpackedScalar::from_bytes(b).as_bytes()
+}
+pub fn unpacked_montgomery_mul(a: &[u8; 32], b: &[u8; 32]) -> [u8; 32] {
+    use UnpackedScalar as U;
+    U::montgomery_mul(&U::from_bytes(a), &U::from_bytes(b)).as_bytes()
+}
+pub fn unpacked_as_montgomery(a: &[u8; 32]) -> [u8; 32] {
+    UnpackedScalar::from_bytes(a).as_montgomery().as_bytes()
+}
+pub fn unpacked_from_montgomery(a: &[u8; 32]) -> [u8; 32] {
+    UnpackedScalar::from_bytes(a).from_montgomery().as_bytes()
+}
+
+pub fn as_radix_16(s: &Scalar) -> [i8; 64] {
+    s.as_radix_16()
+}
+#[cfg(any(feature = "alloc", feature = "precomputed-tables"))]
+pub fn as_radix_2w(s: &Scalar, w: usize) -> [i8; 64] {
+    s.as_radix_2w(w)
+}
+#[cfg(any(feature = "alloc", feature = "precomputed-tables"))]
+pub fn to_radix_2w_size_hint(w: usize) -> usize {
+    Scalar::to_radix_2w_size_hint(w)
+}
+pub fn non_adjacent_form(s: &Scalar, w: usize) -> [i8; 256] {
+    s.non_adjacent_form(w)
+}
+pub fn bits_le(s: &Scalar) -> [bool; 256] {
+    let mut o = [false; 256];
+    for (i, b) in s.bits_le().enumerate() {
+        o[i] = b;
+    }
+    o
+}
+/// A `Scalar` with arbitrary bytes (no reduction, no invariant), as `from_bits` would give.
+pub fn scalar_from_raw_bytes(b: [u8; 32]) -> Scalar {
+    Scalar { bytes: b }
+}
+
+// ---------------------------------------------------------------------------------------
+// Point coordinates in and out
+// ---------------------------------------------------------------------------------------
+
+pub fn edwards_coords(p: &EdwardsPoint) -> [Fe; 4] {
+    [Fe(p.X), Fe(p.Y), Fe(p.Z), Fe(p.T)]
+}
+/// Build an `EdwardsPoint` from arbitrary coordinates. No validity check whatsoever.
+pub fn edwards_from_coords(c: &[Fe; 4]) -> EdwardsPoint {
+    EdwardsPoint {
+        X: c[0].0,
+        Y: c[1].0,
+        Z: c[2].0,
+        T: c[3].0,
+    }
+}
+pub fn ristretto_inner(p: &RistrettoPoint) -> EdwardsPoint {
+    p.0
+}
+pub fn ristretto_from_edwards(p: &EdwardsPoint) -> RistrettoPoint {
+    RistrettoPoint(*p)
+}
+pub fn edwards_double(p: &EdwardsPoint) -> EdwardsPoint {
+    p.double()
+}
+pub fn edwards_mul_by_pow_2(p: &EdwardsPoint, k: u32) -> EdwardsPoint {
+    p.mul_by_pow_2(k)
+}
+
+/// (Y+X, Y-X, Z, T2d)
+pub fn as_projective_niels(p: &EdwardsPoint) -> [Fe; 4] {
+    let n = p.as_projective_niels();
+    [Fe(n.Y_plus_X), Fe(n.Y_minus_X), Fe(n.Z), Fe(n.T2d)]
+}
+/// (y+x, y-x, xy2d)
+pub fn as_affine_niels(p: &EdwardsPoint) -> [Fe; 3] {
+    let n = p.as_affine_niels();
+    [Fe(n.y_plus_x), Fe(n.y_minus_x), Fe(n.xy2d)]
+}
+fn pn(c: &[Fe; 4]) -> ProjectiveNielsPoint {
+    ProjectiveNielsPoint {
+        Y_plus_X: c[0].0,
+        Y_minus_X: c[1].0,
+        Z: c[2].0,
+        T2d: c[3].0,
+    }
+}
+fn an(c: &[Fe; 3]) -> AffineNielsPoint {
+    AffineNielsPoint {
+        y_plus_x: c[0].0,
+        y_minus_x: c[1].0,
+        xy2d: c[2].0,
+    }
+}
+fn completed(c: &CompletedPoint) -> [Fe; 4] {
+    [Fe(c.X), Fe(c.Y), Fe(c.Z), Fe(c.T)]
+}
+/// serial mixed-model formulas: the completed point ((X:Z),(Y:T)) of P +/- niels
+pub fn add_projective_niels(p: &EdwardsPoint, n: &[Fe; 4], subtract: bool) -> [Fe; 4] {
+    if subtract {
+        completed(&(p - &pn(n)))
+    } else {
+        completed(&(p + &pn(n)))
+    }
+}
+pub fn add_affine_niels(p: &EdwardsPoint, n: &[Fe; 3], subtract: bool) -> [Fe; 4] {
+    if subtract {
+        completed(&(p - &an(n)))
+    } else {
+        completed(&(p + &an(n)))
+    }
+}
+/// ProjectivePoint (X:Y:Z) doubling -> completed point
+pub fn projective_double(c: &[Fe; 3]) -> [Fe; 4] {
+    let p = ProjectivePoint {
+        X: c[0].0,
+        Y: c[1].0,
+        Z: c[2].0,
+    };
+    completed(&p.double())
+}
+pub fn completed_as_extended(c: &[Fe; 4]) -> EdwardsPoint {
+    CompletedPoint {
+        X: c[0].0,
+        Y: c[1].0,
+        Z: c[2].0,
+        T: c[3].0,
+    }
+    .as_extended()
+}
+pub fn completed_as_projective(c: &[Fe; 4]) -> [Fe; 3] {
+    let p = CompletedPoint {
+        X: c[0].0,
+        Y: c[1].0,
+        Z: c[2].0,
+        T: c[3].0,
+    }
+    .as_projective();
+    [Fe(p.X), Fe(p.Y), Fe(p.Z)]
+}
+
+pub fn elligator_ristretto_flavor(r0: &Fe) -> RistrettoPoint {
+    RistrettoPoint::elligator_ristretto_flavor(&r0.0)
+}
+pub fn montgomery_elligator_encode(r0: &Fe) -> crate::montgomery::MontgomeryPoint {
+    crate::montgomery::elligator_encode(&r0.0)
+}
+
+// ---------------------------------------------------------------------------------------
+// Precomputed tables, raw entries
+// ---------------------------------------------------------------------------------------
+
+/// Entry j (0..8) of sub-table i (0..32) of the radix-16 basepoint table: (y+x, y-x, xy2d),
+/// which should be (j+1) * 256^i * B.
+#[cfg(feature = "precomputed-tables")]
+pub fn basepoint_table_entry(i: usize, j: usize) -> [Fe; 3] {
+    let t = constants::ED25519_BASEPOINT_TABLE;
+    let e = &((t.0)[i].0)[j];
+    [Fe(e.y_plus_x), Fe(e.y_minus_x), Fe(e.xy2d)]
+}
+/// Same through the transmuted Ristretto table.
+#[cfg(feature = "precomputed-tables")]
+pub fn ristretto_basepoint_table_entry(i: usize, j: usize) -> [Fe; 3] {
+    let t = constants::RISTRETTO_BASEPOINT_TABLE;
+    let e = &(((t.0).0)[i].0)[j];
+    [Fe(e.y_plus_x), Fe(e.y_minus_x), Fe(e.xy2d)]
+}
+/// Entry k (0..64) of the serial affine odd-multiples table: (2k+1) * B.
+#[cfg(feature = "precomputed-tables")]
+pub fn affine_odd_multiples_entry(k: usize) -> [Fe; 3] {
+    let e = &constants::AFFINE_ODD_MULTIPLES_OF_BASEPOINT.0[k];
+    [Fe(e.y_plus_x), Fe(e.y_minus_x), Fe(e.xy2d)]
+}
